@@ -555,6 +555,38 @@ def make_handler(w: World, hi: int, hspec: dict):
         rec['ok'] = True
         rec['same'] = got is rep
 
+    def do_twin(ev, me, op):
+        """['twin', bus]: the handler creates a child, and a replica of it (same event_id, other object: it went through a dump), hands
+        the replica and then the original to one bus and awaits the original. Both objects were accepted, both must be processed."""
+        if ev.depth >= w.maxdepth or w.ndisp + 2 > w.cap:
+            w.rec('disp-skip', by=list(me))
+            return None
+        w.ndisp += 2
+        t = min(ev.depth + 1, len(ET) - 1)
+        otag, orig = w.new_event(t, ev.depth + 1, None)
+        rtag = w.next_tag
+        w.next_tag += 1
+        rep = type(orig).model_validate({**orig.model_dump(), 'tag': rtag})
+        w.events[rtag] = rep
+        w.replica_of[rtag] = otag
+        w.parent[otag] = tuple(me)
+        out_tag = None
+        for tag, obj, isrep in ((rtag, rep, True), (otag, orig, False)):
+            rec = w.rec('disp', by=list(me), ev=tag, bus=bus_name(w.sc, op[1]), mode='await' if not isrep else 'ff', xp=None, **({'rep': True, 'of': otag, 'twin': True} if isrep else {'twin': True}))
+            try:
+                got = w.buses[op[1]].dispatch(obj)
+            except Exception as ex:
+                rec['ok'] = False
+                rec['exc'] = type(ex).__name__
+                w.rec('disp-rej', by=list(me), ev=tag, exc=type(ex).__name__)
+                continue
+            rec['ok'] = True
+            rec['same'] = got is obj
+            if not isrep:
+                w.children.setdefault(ev.tag, []).append(tag)
+                out_tag = tag
+        return out_tag
+
     def do_redispatch(ev, me, tb, tag):
         """the handler hands a child object the bus refused earlier to the same bus again"""
         child = w.events[tag]
@@ -634,6 +666,10 @@ def make_handler(w: World, hi: int, hspec: dict):
                     do_hredisp(ev, me, op)
                 elif k == 'fwdreplica':
                     do_fwdreplica(ev, me, op)
+                elif k == 'twin':
+                    tag = do_twin(ev, me, op)
+                    if tag is not None:
+                        await do_await(me, tag)
                 elif k == 'fan':
                     # fan out op[2] fire-and-forget children to one bus; the bus may refuse some (back-pressure). With op[3] the
                     # handler does what the error message says: waits for the accepted ones, then dispatches the refused objects again
